@@ -270,7 +270,10 @@ def split_top(s):
 
 
 def agree(impl, model, req=None):
-    """the model predicts the result code and the field-level dump of the value read back"""
+    """the model predicts the result code and everything from ` m=` on: the field-level dump of the value get_value read back, get_value's
+    code (f=: 0 or CIF_AMBIGUOUS_ITEM), the field-level dumps of every packet the iterator delivered (mi=) and of every value the walker
+    presented (mw=), and the two doubles of a top-level number (d=) — computed by lean/Driver/Fam/Storeval.lean through the model's
+    get_value, packet iterator (Model/PktItr) and walk (Model/Walk) on its store model (Model/StoreRead)"""
     if impl == model:
         return True
     m = SESSION.match(impl)
